@@ -6100,8 +6100,10 @@ class LazyListContainer(list):
             return [self[i] for i in range(*index.indices(self._count))]
         if index in self._values:
             return self._values[index]
+        fallback = stream_tell(self._stream, self._path)
         stream_seek(self._stream, self._offsets[index], 0, self._path) # KeyError
         parseret = self._subcon._parsereport(self._stream, self._context, self._path)
+        stream_seek(self._stream, fallback, 0, self._path)
         self._values[index] = parseret
         return parseret
 
